@@ -50,7 +50,13 @@ package api
 //@   ensures result.0 == this.$wsClosed
 //@   ensures result.0 ==> result.1 != nil
 
+// the sequence of payloads handed to a data reader (C06): $deliv[0 .. $delivLen)
+//@ ghost field Reader.$delivLen int
+//@ ghost field Reader.$deliv map[int]slice
 //@ iface ShipConnectionDataReaderInterface.HandleShipPayloadMessage(msg)
+//@   ensures this.$delivLen == old(this.$delivLen) + 1 && this.$deliv[old(this.$delivLen)] == msg
+//@   ensures forall i: int :: i != old(this.$delivLen) ==> this.$deliv[i] == old(this.$deliv[i])
+//@   modifies this.$delivLen, this.$deliv
 
 // ---- a SHIP connection as seen by the hub ----
 //@ ghost field Conn.$ski string
